@@ -161,6 +161,12 @@ const noiseAlphabet = "{}()[]:$@!.\"\\ abcdefquerymutationfragmenton#,\n\t012345
 var mutateTokens = []string{"{", "}", "(", ")", "...", "on", "fragment", "$", "@skip(if: true)", "nope", ":", "\"", "query", "id", "!"}
 
 func (c08) Run(c *Ctx, i int) CaseResult {
+	// L2: the routing table's own operations against Um (2 sequences per case): a lookup that fails makes planning fail
+	for k := 0; k < 2; k++ {
+		if uf := UrlMapCorr(c, c.Rand(i*10+k+66000000)); len(uf) > 0 {
+			return CaseResult{ID: fmt.Sprintf("gen:%d", i), Nontrivial: true, Fails: uf}
+		}
+	}
 	fixed := c08Fixed()
 	var in FedInput
 	var pc planCase
